@@ -145,6 +145,25 @@ Theorem C02_legacy_sensitive : forall t t' idx script script' ht c c' p,
 Proof. exact legacy_sensitive. Qed.
 Print Assumptions C02_legacy_sensitive.
 
+(* legacy with the RANGEPROOF bit: the covered view then includes the range and surjection proofs of the outputs *)
+Theorem C02_legacy_rp_sensitive : forall t t' idx script script' ht c c' p,
+  ht_rp ht = true ->
+  legacy_tx t idx script ht = Some c -> legacy_tx t' idx script' ht = Some c' ->
+  wf_tx c = true -> wf_tx c' = true ->
+  preimage_legacy t idx script ht = Some p -> preimage_legacy t' idx script' ht = Some p ->
+  sig_view true c = sig_view true c'.
+Proof. exact legacy_rp_sensitive. Qed.
+Print Assumptions C02_legacy_rp_sensitive.
+
+(* legacy, every hash type *)
+Theorem C02_legacy_sensitive_any : forall t t' idx script script' ht c c' p,
+  legacy_tx t idx script ht = Some c -> legacy_tx t' idx script' ht = Some c' ->
+  wf_tx c = true -> wf_tx c' = true ->
+  preimage_legacy t idx script ht = Some p -> preimage_legacy t' idx script' ht = Some p ->
+  sig_view (ht_rp ht) c = sig_view (ht_rp ht) c'.
+Proof. exact legacy_sensitive_any. Qed.
+Print Assumptions C02_legacy_sensitive_any.
+
 (* taproot: equal pre-images force equal covered views (all hash types, key and script path, with or without annex) *)
 Theorem C02_v1_sensitive : forall (H1 : bytes -> bytes),
   (forall a b, H1 a = H1 b -> a = b) -> (forall a, length (H1 a) = 32%nat) ->
